@@ -57,6 +57,15 @@ func parseKVBuffer(b []byte) ([][2]string, bool) {
 }
 
 func engineRelayAppend(rng *rand.Rand, n int, tier string, o *Out) {
+	// every pooled checksum of this run is tracked (harness/overlay/zz_verif_c02.go, quarantine
+	// mode): the trace of each case is judged by the ownership discipline (engine_ckown.go, sub ckown)
+	tchannel.VerifCkTrack(true, true)
+	defer tchannel.VerifCkTrack(false, false)
+	ckJudge := newC02Judge()
+	defer func() {
+		time.Sleep(30 * time.Millisecond)
+		c02EmitTrace(o, ckJudge, "ra-end", false, "appending relay, after the last case: ")
+	}()
 	server, err := tchannel.NewChannel("svc", nil)
 	if err != nil {
 		panic(err)
@@ -197,5 +206,7 @@ func engineRelayAppend(rng *rand.Rand, n int, tier string, o *Out) {
 			o.Sample(map[string]interface{}{"sub": "relayappend", "orig_pairs": len(orig), "appended_pairs": len(app), "arg2": len(arg2), "arg3": len(arg3), "arg3_write_style": style})
 		}
 		o.Oracle("relayappend", fmt.Sprintf("ra%d", c), len(app) > 0, fmt.Sprint(c, len(orig), len(app), len(arg3), style), verdict)
+		c02EmitTrace(o, ckJudge, fmt.Sprintf("ra%dt", c), len(app) > 0,
+			fmt.Sprintf("call through an appending relay (%d appended pairs, arg3 %d bytes, write style %d): ", len(app), len(arg3), style))
 	}
 }
